@@ -186,14 +186,51 @@ def generic_rules(body):
         edits.append((h.start(), h.end(), '%s.as_slice()' % h.group(1), 'R9'))
     # R12  E.map_or(D, |v| B) => (match E { Some(v) => B, None => D })     exact desugaring of Option::map_or for a closure
     #      without control flow; D is evaluated eagerly by map_or, so D must be a literal or a path (no side effect)
-    for h in re.finditer(r'([A-Za-z_]\w*(?:\s*\.\s*\w+)*?)\s*\.\s*map_or\s*\(', m):
+    for h in re.finditer(r'\.\s*map_or\s*\(', m):
+        # receiver: walk back over a postfix chain  ident ( .ident | (..) | [..] )*
+        p = h.start()
+        while True:
+            q = p
+            while q > 0 and m[q - 1].isspace():
+                q -= 1
+            if q > 0 and m[q - 1] in ')]':
+                depth, q2 = 0, q - 1
+                while q2 >= 0:
+                    if m[q2] in ')]':
+                        depth += 1
+                    elif m[q2] in '([':
+                        depth -= 1
+                        if depth == 0:
+                            break
+                    q2 -= 1
+                q = q2
+                # a call/index needs something callable in front of it
+                while q > 0 and (m[q - 1].isalnum() or m[q - 1] == '_'):
+                    q -= 1
+            else:
+                q3 = q
+                while q3 > 0 and (m[q3 - 1].isalnum() or m[q3 - 1] == '_'):
+                    q3 -= 1
+                if q3 == q:
+                    break
+                q = q3
+            p = q
+            r_ = p
+            while r_ > 0 and m[r_ - 1].isspace():
+                r_ -= 1
+            if r_ > 0 and m[r_ - 1] == '.':
+                p = r_ - 1
+                continue
+            break
+        recv_start = p
         op = h.end() - 1
         cl = match_brace(m, op)
         inner = body[op + 1:cl]
         cm = re.match(r'^\s*([\w:.]+)\s*,\s*\|\s*(\w+)\s*\|\s*(.*?)\s*$', inner, re.S)
-        if not cm or re.search(r'\b(return|break|continue)\b|\?', mask(cm.group(3))):
-            raise LostAnchor('rule R12: map_or whose arguments are not `literal-or-path, |v| expr`')
-        edits.append((h.start(), cl + 1, '(match %s { Some(%s) => %s, None => %s })' % (re.sub(r'\s+', '', h.group(1)), cm.group(2), cm.group(3), cm.group(1)), 'R12'))
+        recv = re.sub(r'\s+', '', body[recv_start:h.start()])
+        if not cm or not recv or re.search(r'\b(return|break|continue)\b|\?', mask(cm.group(3))):
+            raise LostAnchor('rule R12: map_or whose receiver/arguments are not `postfix-chain.map_or(literal-or-path, |v| expr)`')
+        edits.append((recv_start, cl + 1, '(match %s { Some(%s) => %s, None => %s })' % (recv, cm.group(2), cm.group(3), cm.group(1)), 'R12'))
     # R11  V.binary_search(&E) => V.binary_search_v(&E)   (trait shim with std's full contract for an ascending u64 list, prelude/sortv.rs)
     for h in re.finditer(r'\.\s*binary_search\s*\(', m):
         edits.append((h.start(), h.end(), '.binary_search_v(', 'R11'))
@@ -422,14 +459,15 @@ def build_fn(key, mode, log):
     for d in c.directives:
         if d['kind'] != 'replace':
             continue
-        m = re.match(r'(\S+)\s+`(.*?)`\s*=>\s*`(.*?)`\s*(x(\d+))?$', d['arg'], re.S)
+        m = re.match(r'(\S+)\s+`(.*?)`\s*=>\s*`(.*?)`\s*(x(\d+|\*))?$', d['arg'], re.S)
         if not m:
             raise ValueError('%s:%d: bad replace' % (c.rel, d['lineno']))
         rule, frm, to, _, cnt = m.groups()
-        cnt = int(cnt) if cnt else 1
+        anycnt = cnt == '*'          # every occurrence (at least one)
+        cnt = 1 if anycnt else (int(cnt) if cnt else 1)
         rx = flex_tok(frm)
         hits = list(rx.finditer(body))
-        if len(hits) != cnt:
+        if (anycnt and not hits) or (not anycnt and len(hits) != cnt):
             raise LostAnchor('%s:%d: rule %s pattern `%s` found %d times in %s (expected %d)'
                              % (c.rel, d['lineno'], rule, frm, len(hits), where, cnt))
         for h in reversed(hits):
